@@ -56,7 +56,7 @@ def get_protocol(protocol_version: str) -> ProtocolType:
         (
             PROTOCOL_VERSIONS[_protocol_version]
             for _protocol_version in sorted(PROTOCOL_VERSIONS, reverse=True)
-            if AwesomeVersion(protocol_version) >= AwesomeVersion(_protocol_version)
+            if not AwesomeVersion(protocol_version) < AwesomeVersion(_protocol_version)
         ),
         protocol_14,
     )
